@@ -169,14 +169,16 @@ fn some_subset(rng: &mut StdRng, correct: &[usize]) -> Vec<usize> {
 }
 
 /// Picks one adversarial action. `cur` is the highest view any correct replica is in.
-pub fn craft(rng: &mut StdRng, c: &Committee, k: &mut Knowledge, correct: &[usize], cur: u64, allow_extreme: bool) -> Option<Crafted> {
+pub fn craft(rng: &mut StdRng, c: &Committee, k: &mut Knowledge, correct: &[usize], cur: u64, allow_extreme: bool, laggard: Option<(usize, u64)>, helpful: bool) -> Option<Crafted> {
     let byz: Vec<usize> = (0..c.n()).filter(|i| c.byz[*i]).collect();
     if byz.is_empty() {
         return None;
     }
     let b = *byz.choose(rng).unwrap();
     let sk = &c.sk[b];
-    let choice = rng.gen_range(0..if allow_extreme { 13 } else { 11 });
+    // `helpful`: the Byzantine validators vote like honest ones (so that the rest can finalize without an isolated replica) and
+    // poison that replica with old certificates
+    let choice = if helpful { [3usize, 3, 3, 5][rng.gen_range(0..4)] } else { rng.gen_range(0..if allow_extreme { 13 } else { 11 }) };
     let payload = |rng: &mut StdRng, tag: &str| validator::Payload(format!("{tag}-byz{b}-{}", rng.gen::<u32>()).into_bytes());
     match choice {
         // equivocating / rule-breaking proposals when a Byzantine validator leads a current or upcoming view
@@ -214,7 +216,7 @@ pub fn craft(rng: &mut StdRng, c: &Committee, k: &mut Knowledge, correct: &[usiz
         }
         // vote for everything: commit votes for every proposal seen in a recent view (equivocating votes)
         3 | 4 => {
-            let view = rng.gen_range(cur.saturating_sub(1)..=cur + 1);
+            let view = if helpful { cur } else { rng.gen_range(cur.saturating_sub(1)..=cur + 1) };
             let mut msgs = vec![];
             let mut headers: Vec<BlockHeader> = vec![];
             for p in k.proposals.get(&view).into_iter().flatten() {
@@ -230,15 +232,26 @@ pub fn craft(rng: &mut StdRng, c: &Committee, k: &mut Knowledge, correct: &[usiz
             headers.sort();
             headers.dedup();
             if headers.is_empty() {
+                if helpful {
+                    return None;
+                }
                 headers.push(BlockHeader { number: c.genesis.first_block, payload: payload(rng, "ghost").hash() });
             }
             for h in headers {
-                let m = s_commit(sk, ReplicaCommit { view: c.view(view), proposal: h });
-                msgs.push((m, some_subset(rng, correct)));
+                for b in if helpful { byz.clone() } else { vec![b] } {
+                    let m = s_commit(&c.sk[b], ReplicaCommit { view: c.view(view), proposal: h });
+                    msgs.push((m, if helpful { correct.to_vec() } else { some_subset(rng, correct) }));
+                }
             }
             Some(Crafted { what: "byz-commit-votes", msgs, steer: None })
         }
         // timeout votes lying about the high vote / reporting old-but-valid certificates
+        5 | 6 if helpful => {
+            // an honest-looking timeout vote for the current view from every Byzantine validator
+            let newest = k.commit_qcs.values().next_back().cloned();
+            let msgs = byz.iter().map(|b| (s_timeout(&c.sk[*b], ReplicaTimeout { view: c.view(cur), high_vote: None, high_qc: newest.clone() }), correct.to_vec())).collect();
+            Some(Crafted { what: "byz-timeout-helpful", msgs, steer: None })
+        }
         5 | 6 => {
             let view = rng.gen_range(cur.saturating_sub(1)..=cur + 1);
             let old_qc = if rng.gen_bool(0.6) { k.commit_qcs.values().collect::<Vec<_>>().choose(rng).map(|q| (*q).clone()) } else { None };
@@ -253,7 +266,24 @@ pub fn craft(rng: &mut StdRng, c: &Committee, k: &mut Knowledge, correct: &[usiz
         }
         // new-view carrying an old certificate, or one completed early with Byzantine signatures
         7 => {
-            let just = if rng.gen_bool(0.5) {
+            let mut only_to: Option<usize> = None;
+            let just = if helpful || rng.gen_bool(0.5) {
+                // a timeout certificate of an OLD view, built from the honest timeout votes of that view plus this validator's
+                // own vote - which carries the NEWEST commit certificate (nothing bounds the view of a vote's high certificate):
+                // a lagging replica that accepts it learns the newest certificate while staying in an old view. Aimed at the
+                // replica that lags most, for the oldest view it would still accept.
+                let old = match laggard {
+                    Some((node, view)) if view < cur => {
+                        only_to = Some(node);
+                        *k.timeouts.range(view..).next()?.0
+                    }
+                    _ if helpful => return None,
+                    _ => **k.timeouts.keys().collect::<Vec<_>>().choose(rng)?,
+                };
+                let newest = k.commit_qcs.values().next_back().cloned();
+                let cc = c;
+                ProposalJustification::Timeout(assemble_timeout_qc(c, k, old, |_| ReplicaTimeout { view: cc.view(old), high_vote: None, high_qc: newest.clone() }, false)?)
+            } else if rng.gen_bool(0.5) {
                 let v = *k.commit_qcs.keys().collect::<Vec<_>>().choose(rng)?;
                 ProposalJustification::Commit(k.commit_qcs[v].clone())
             } else {
@@ -266,7 +296,11 @@ pub fn craft(rng: &mut StdRng, c: &Committee, k: &mut Knowledge, correct: &[usiz
                 }
             };
             let m = s_new_view(sk, ReplicaNewView { justification: just });
-            Some(Crafted { what: "byz-new-view", msgs: vec![(m, some_subset(rng, correct))], steer: None })
+            let to = match only_to {
+                Some(n) => vec![n],
+                None => some_subset(rng, correct),
+            };
+            Some(Crafted { what: if only_to.is_some() { "byz-new-view-old-certificate-to-laggard" } else { "byz-new-view" }, msgs: vec![(m, to)], steer: None })
         }
         // votes for future views (flood)
         8 => {
@@ -346,4 +380,14 @@ pub fn craft(rng: &mut StdRng, c: &Committee, k: &mut Knowledge, correct: &[usiz
             Some(Crafted { what: "byz-absurd", msgs: vec![(m, some_subset(rng, correct))], steer: None })
         }
     }
+}
+
+/// The poison of the `poisoned-laggard` scenario: a new-view for the view after `old` whose timeout certificate consists of the
+/// honest timeout votes of `old` plus the Byzantine validators' own votes, which carry the newest commit certificate known.
+pub fn poison_new_view(c: &Committee, k: &mut Knowledge, old: u64) -> Option<SignedMsg> {
+    let b = (0..c.n()).find(|i| c.byz[*i])?;
+    let newest = k.commit_qcs.values().next_back().cloned();
+    let cc = c;
+    let qc = assemble_timeout_qc(c, k, old, |_| ReplicaTimeout { view: cc.view(old), high_vote: None, high_qc: newest.clone() }, false)?;
+    Some(s_new_view(&c.sk[b], ReplicaNewView { justification: ProposalJustification::Timeout(qc) }))
 }
